@@ -95,20 +95,25 @@ class C12(Check):
                 self.solo[(i, k)] = (o.raw, [e[2] for e in w.log[base:] if e[0] == "x"])
 
     def bounds(self):
-        return {"preemption_bound_2_clients": self.bound, "preemption_bound_3_clients": self.bound - 1,
+        return {"preemption_bound_2_clients": "2 (quick); thorough: 3 for 7 multi-APDU pairs, 2 otherwise",
+                "preemption_bound_3_clients": "1 (quick, one triple); thorough: 2 for triples of distinct "
+                                              "commands, 1 otherwise",
                 "clients": [2, 3] if self.thorough else [2]}
 
     def cases(self):
         cs = []
+        deep = {("sign", "advance"), ("state", "heartbeat"), ("sign", "state"), ("advance", "heartbeat"),
+                ("state", "state"), ("pubkey", "hash"), ("uihb", "state")}
         for a, b in itertools.combinations_with_replacement(KINDS, 2):
-            cs.append({"cmds": [a, b], "frag": [1, 2]})
+            bound = self.bound if (not self.thorough or (a, b) in deep or (b, a) in deep) else self.bound - 1
+            cs.append({"cmds": [a, b], "frag": [1, 2], "bound": bound})
             if self.thorough or (a, b) in (("sign", "advance"), ("state", "heartbeat"), ("pubkey", "hash")):
-                cs.append({"cmds": [a, b], "frag": [2, 1]})
+                cs.append({"cmds": [a, b], "frag": [2, 1], "bound": bound if not self.thorough else 2})
         if self.thorough:
             for t in itertools.combinations_with_replacement(KINDS[:5], 3):
-                cs.append({"cmds": list(t), "frag": [1, 2, 1]})
+                cs.append({"cmds": list(t), "frag": [1, 2, 1], "bound": 1 if len(set(t)) < 3 else 2})
         else:
-            cs.append({"cmds": ["state", "heartbeat", "pubkey"], "frag": [1, 1, 1]})
+            cs.append({"cmds": ["state", "heartbeat", "pubkey"], "frag": [1, 1, 1], "bound": 1})
         return cs
 
     def driver(self, case):
@@ -142,8 +147,7 @@ class C12(Check):
             ctx, obs = run_once(run, case["choices"])
             check(ctx, obs)
             return vs
-        bound = self.bound if len(case["cmds"]) == 2 else self.bound - 1
-        explore(run, check, stats, bound=bound)
+        explore(run, check, stats, bound=case.get("bound", 2))
         return vs
 
     def replay(self, case, choices):
